@@ -26,6 +26,18 @@ let rec take n = function [] -> [] | x :: t -> if n <= 0 then [] else x :: take 
 
 let rec drop n l = if n <= 0 then l else match l with [] -> [] | _ :: t -> drop (n - 1) t
 
+(* the pixel map the calls leave on a target with box bb: replay the writes in order, print sorted by (y,x) *)
+let map_string bb calls =
+  let tbl = Hashtbl.create 64 in
+  Stdlib.List.iter
+    (fun c ->
+      Stdlib.List.iter
+        (fun (p, v) -> Hashtbl.replace tbl (int_of_z p.py, int_of_z p.px) (int_of_z v))
+        (call_writes bb c))
+    calls;
+  let items = Stdlib.List.sort compare (Hashtbl.fold (fun k v acc -> (k, v) :: acc) tbl []) in
+  Stdlib.String.concat "," (Stdlib.List.map (fun ((y, x), v) -> Printf.sprintf "%d:%d:%d" x y v) items)
+
 let init () =
   register "img_new" (function
     | [bpp; alt; w; h; len] -> (
@@ -62,18 +74,7 @@ let init () =
                 | _ -> failwith "BAD-ARGS"
               else (image_draw im, image_box im)
             in
-            let tbl = Hashtbl.create 64 in
-            Stdlib.List.iter
-              (fun c ->
-                Stdlib.List.iter
-                  (fun (p, v) -> Hashtbl.replace tbl (int_of_z p.py, int_of_z p.px) (int_of_z v))
-                  (call_writes bb c))
-              calls;
-            let items = Stdlib.List.sort compare (Hashtbl.fold (fun k v acc -> (k, v) :: acc) tbl []) in
-            let smap =
-              Stdlib.String.concat ","
-                (Stdlib.List.map (fun ((y, x), v) -> Printf.sprintf "%d:%d:%d" x y v) items)
-            in
+            let smap = map_string bb calls in
             let area_n a = int_of_z a.sz.sw * int_of_z a.sz.sh in
             let log =
               if tk = "0" then ""
